@@ -128,3 +128,49 @@ def _mv(prog):
 
 
 KIND_TESTS["MV"] = _mv
+
+
+def _l(prog):
+    classes = {("rw", "l::Versions"): "VH", ("mutex", "std::vec::Vec<u64>"): "CS"}
+    L = E.LockFacts(prog, classes)
+    out = []
+    for name, callee, expect in (("l::Tree::bad_insert", "l::work", False), ("l::Tree::good_insert_stmt", "l::work", True)):
+        f = prog.need(name)
+        c = f.calls_to(callee)[0]
+        held = {x for (x, _m) in L.held_at(f, c.bb, must=True)}
+        out.append(("L", name, ("VH" in held) == expect))
+    # lock order edges
+    def edges(name):
+        f = prog.need(name)
+        gl = L.guard_locals(f)
+        es = set()
+        for c in f.calls:
+            for a in L.call_may_acquire(c):
+                for h in L.holders_at(f, c.bb, must=False):
+                    if gl[h][0] != a:
+                        es.add((gl[h][0], a))
+        return es
+    out.append(("L", "l::Tree::good_order", edges("l::Tree::good_order") == {("CS", "VH")}))
+    out.append(("L", "l::Tree::bad_order", edges("l::Tree::bad_order") == {("VH", "CS")}))
+    return out
+
+
+def _d(prog):
+    out = []
+    for name, expect_param in (("d::good_commit_on_current", True), ("d::bad_commit_on_stale", False)):
+        f = prog.need(name)
+        uc = f.calls_to("d::upgrade")[0]
+        cbs = prog.callbacks(uc)
+        g = prog.fns[cbs[0]] if cbs else None
+        if g is None:
+            out.append(("D", name, False))
+            continue
+        outs = E.origins(g, {"o": "move", "l": 0})
+        from_param = any(o.kind == "param" and o.what == 2 for o in outs)
+        from_upvar = any(o.kind == "upvar" for o in outs)
+        out.append(("D", name, (from_param and not from_upvar) == expect_param))
+    return out
+
+
+KIND_TESTS["L"] = _l
+KIND_TESTS["D"] = _d
